@@ -5,6 +5,7 @@ pub mod c12;
 pub mod c13;
 pub mod c14;
 pub mod c17;
+pub mod c18;
 pub mod mb;
 pub mod mbchecks;
 
@@ -210,6 +211,14 @@ pub fn all() -> Vec<CheckDef> {
             rule: "worlds with ping_timeout p in {1..200 s} and pong_timeout q with q<p, q=p, q>p; 1-4 clients each with a response pattern (always, always with another token, never, stops after k=1..5 answers) plus unrelated traffic (own PINGs with tokens, PRIVMSGs); 4-11 ping cycles in virtual time; oracle = PONG echoes the token; server PINGs at registration + i*p; responders never closed; a client silent from its k-th PING on gets ERROR and EOF by t_k + q + one simulation step; non-trivial = client with >= 2 PING cycles that is not a plain responder under q<p; distinct by (relation, pattern class, k)",
             level: "exploration",
             assumptions: &["Tokio paused clock (virtual time) on a single-threaded runtime; the simulation step (min(p,q)/4, 100..1000 ms) is the timing tolerance", "no real-time tier"],
+        },
+        CheckDef {
+            id: "C18",
+            run: c18::run,
+            replay: c18::replay,
+            rule: "(b) bursts: 10 conflict kinds (two registrations / two renames for one nick, simultaneous first joins, JOINs racing for the last +l slot, MODE vs JOIN, KICK vs PRIVMSG, PRIVMSG vs NICK, KILL vs activity, last PART vs JOIN, INVITE vs JOIN) of 3-7 commands over 2-4 connections, written without waiting in a generated order and executed under a generated yield schedule at the H2 points (process_nick, authenticate, privmsg), with optional server password (Argon2 await); oracle = outcome (per-connection reply sequences, per (sender,receiver) relay sequences, final probe digest from every viewpoint, closes) equals that of SOME sequential order of the same commands (all interleavings respecting per-connection order, <= 720) on a fresh server, plus one winner per nick, one founder, members <= limit, every live connection answers PING; (a) pipelines: 2-6 connections each send 5-30 commands each followed by PING k in one or many writes; oracle = PONG k in order, every reply inside its command's segment, relays of one sender arrive in order; non-trivial = burst with >= 2 commands where a yield was taken (or no schedule) / any pipeline; distinct by (kind, yields taken, write order)",
+            level: "exploration",
+            assumptions: &["SIM single-threaded runtime: interleavings arise from write order, select! seed and the yields injected at the three H2 schedule points; preemption inside synchronous stretches and true parallelism (multi-thread runtime) are not explored", "linearizability is judged against sequential executions of the same server code (differential), so a defect that is also present sequentially is left to the other properties"],
         },
         CheckDef {
             id: "C19",
